@@ -1,12 +1,13 @@
 #!/bin/sh
 # run every collected mutant against the check of the property it was written for
 out=${1:-/tmp/matrix.txt}; : > $out
-for d in /verif/seeded/incoming/agent_out_*/[A-Z] /verif/seeded/incoming/agent_out_*/extra_C; do
+for d in /verif/seeded/incoming/agent_out*_*/[A-Z] /verif/seeded/incoming/agent_out*_*/extra_C /verif/seeded/incoming/agent_out*_*/C_bonus; do
   [ -f $d/patch.diff ] || continue
-  id=$(echo $d | sed 's#.*agent_out_\(C[0-9]*\)b*/.*#\1#'); name=$(echo $d | sed 's#.*agent_out_##')
+  id=$(echo $d | sed "s#.*agent_out2*_\(C[0-9]*\)b*/.*#\1#"); name=$(echo $d | sed 's#.*incoming/agent_##')
   res=$(tools/try_mutant.sh $d/patch.diff $id 2>&1)
   if echo "$res" | grep -q PATCH-DOES-NOT-APPLY; then v=NOAPPLY
-  elif echo "$res" | grep -q "^VIOLATION"; then v=DETECTED
+  elif echo "$res" | grep -q "^RESULT .* rc=1 "; then v=DETECTED
+  elif echo "$res" | grep -q "^RESULT .* rc=2 "; then v=CHECK-ERROR
   else v=MISSED; fi
-  echo "$name $id $v" | tee -a $out
+  echo "$name $id $v $(echo "$res" | grep "^RESULT" | sed 's/RESULT //')" | tee -a $out
 done
